@@ -572,7 +572,10 @@ def body_parts(src, body, strict, what):
                 src.bad(s, f"statement other than `let` before the struct literal of {what}")
             continue
         lets[let[0]] = (let[1], let[2])
-    return lets, stmts[-1]
+    tail = stmts[-1]
+    if len(tail) == 1 and is_i(tail[0]) and tail[0].text in lets and not lets[tail[0].text][0]:
+        tail = lets[tail[0].text][1]        # `let taken = Self { .. }; taken`
+    return lets, tail
 
 
 def build_row(src, tname, decls, fns, new_fn, take_fn, rel):
@@ -657,7 +660,13 @@ def scan_file(repo, rel, rows, wrappers, notes):
         cores = []
         for f in takes:
             stmts = split_statements(src, f[2])
-            cons = constructing(src, stmts[-1], tname)
+            tail = stmts[-1]
+            if len(tail) == 1 and is_i(tail[0]):            # `let taken = Self { .. }; taken`
+                for st in stmts[:-1]:
+                    let = parse_let(st)
+                    if let and let[0] == tail[0].text and not let[1]:
+                        tail = let[2]
+            cons = constructing(src, tail, tname)
             if cons is None:
                 if rel == SER + "/outer_sequence_builder.rs" and f[0] == "take_records":
                     cores.append((f, "records"))
